@@ -53,7 +53,7 @@ def run_pipeline(P, tier, seed, replay=None):
         return 2
     gres = dv.generated_checks(P.generated)
     for n, (gok, glog) in gres.items():
-        name = {"Constants": "constants_agree", "FnTable": "abi_table_match", "Ambient": "ambient_inventory", "CallGraph": "no_recursion_on_validation_path", "Casts": "casts_inventory", "PanicSites": "panic_sites_inventory", "DictCompare": "dictionary_compares_the_remembered_bytes"}[n]
+        name = {"Constants": "constants_agree", "FnTable": "abi_table_match", "Ambient": "ambient_inventory", "CallGraph": "no_recursion_on_validation_path", "Casts": "casts_inventory", "PanicSites": "panic_sites_inventory", "DictCompare": "dictionary_compares_the_remembered_bytes", "LabelBytes": "label_byte_policies_are_the_transcribed_ones"}[n]
         obligations.append(name)
         if gok:
             discharged.append(name)
